@@ -36,6 +36,16 @@ def close(a, q):
     return abs(float(a) - q) <= RTOL * max(1.0, abs(q))
 
 
+def half_integer_exponents(t):
+    try:
+        r = st.ref_eval(t)
+    except st.RefError:
+        return False
+    if r[0] != 'fun':
+        return True
+    return all(F(2 * e).denominator == 1 for key in r[2] for e in key)
+
+
 def leaf(rng, n, poly):
     t = st.gen_leaf(rng, n, poly)
     if rng.random() < 0.25:
@@ -348,7 +358,8 @@ def run(ctx):
             vcases_p.append({'t': t, 'x': [frac_str(F(rng.randint(-4, 4), rng.choice([1, 2]))) for _ in range(n)]})
             cols = [[frac_str(F(rng.randint(-3, 3), rng.choice([1, 2]))) for _ in range(n)] for _ in range(rng.randint(1, 4))]
             mats.append({'t': t, 'cols': cols})
-        else:
+        elif half_integer_exponents(t):
+            # evaluation / shift points are ln(4) k: e^{alpha.x} is an exact power of two only for half-integer exponents
             k = [rng.randint(-2, 2) for _ in range(n)]
             vcases_s.append({'t': t, 'k': k})
             shifts.append({'t': t, 'k': [rng.randint(-2, 2) for _ in range(n)]})
